@@ -330,9 +330,12 @@ class World:
         hook = os.path.join(self.remote, 'hooks', 'update')
         with open(hook, 'w') as f:
             f.write('#!/bin/sh\n'
-                    'if [ -f "$GIT_DIR/reject" ] && '
-                    'grep -qxF "$1" "$GIT_DIR/reject"; then\n'
-                    '  echo "sim: update of $1 refused" >&2\n  exit 1\nfi\n'
+                    'if [ -f "$GIT_DIR/reject" ]; then\n'
+                    '  while IFS= read -r pat; do\n'
+                    '    case "$1" in $pat)\n'
+                    '      echo "sim: update of $1 refused" >&2; exit 1;;\n'
+                    '    esac\n'
+                    '  done < "$GIT_DIR/reject"\nfi\n'
                     'exit 0\n')
         os.chmod(hook, 0o755)
 
@@ -738,6 +741,19 @@ class World:
                                         'third party push', 'dave')
                     self.ugit('push', '-q', 'origin', name)
                 log.update(name=name, sha=sha)
+        elif do == 'push_tag':
+            # somebody publishes an (annotated) tag of that name first
+            name = action['name']
+            heads = self.heads()
+            on = action.get('on')
+            if on not in heads:
+                on = sorted(h for h in heads
+                            if h.startswith('development/'))[0]
+            self.ugit('tag', '-f', '-a', '-m', 'release ' + name, name,
+                      'origin/' + on, actor='dave')
+            rc, _ = self.ugit('push', '-q', 'origin', 'refs/tags/' + name,
+                              check=False)
+            log.update(name=name, on=on, pushed=(rc == 0))
         else:
             raise HarnessError('unknown third-party action %r' % do)
         log['job'] = self.njob
